@@ -203,7 +203,25 @@ def check(ctx):
                          f.file, st_.get("line")))
             else:
                 r3.ok("%s reads line_number but builds no output text" % short_path(fid))
-    r3.require_floor(12, "templates + line_number reads")
+    # decoy invariance: the per-function inference state (the event parser's symbol table) is created afresh for every function it is
+    # seeded for; a table that outlives the loop iteration lets unrelated earlier functions of the same file decide a payload type
+    seeders = [(f, c) for fid, f in P.fns.items() if fid in reach for c in f.calls
+               if short_path(c.best) == "EventParser::extract_param_types" and c.bb in f.reach_blocks]
+    for f, c in seeders:
+        o = f.origin(c.args[-1]) if c.args else ("none",)
+        while o[0] == "proj":
+            o = o[1]
+        if o[0] == "call" and o[1].name in ("new", "default", "with_capacity"):
+            if f.enclosing_loop_heads(o[1].bb) == f.enclosing_loop_heads(c.bb):
+                r3.ok("%s: the symbol table seeded from a function's parameters is created in the same loop iteration" % short_path(f.id))
+            else:
+                r3.bad(V(r3.id, f.id, "symbol-table-outlives-function", "the symbol table passed to extract_param_types is created outside the per-function loop: "
+                         "bindings of earlier functions in the file leak into later payload-type inference", c.file, c.line))
+        else:
+            r3.bad(V(r3.id, f.id, "symbol-table-origin:%s" % o[0], "the symbol table seeded by extract_param_types is not a freshly created table (%s)" % f.describe_origin(o)[:80], c.file, c.line))
+    if not seeders:
+        r3.bad(V(r3.id, "<anchor>", "missing:extract_param_types", "anchor not found: where is the event parser's symbol table seeded?"))
+    r3.require_floor(13, "templates + line_number reads + symbol-table seeding")
     rules.append(r3)
 
     # ---------------------------------------------------------------- D4
